@@ -163,6 +163,43 @@ Theorem c09_config_lost_refuted : carries_config false [RErr] = false.
 Proof. exact config_lost_refuted. Qed.
 Print Assumptions c09_config_lost_refuted.
 
+(* ---- the in-memory transport under back-pressure (C09-N3) ------------------------------------------- *)
+
+(* pinned network/local.go: a close that waits for its confirmation with the manager's lock while the
+   forwarding goroutine sits on a full queue nobody reads: no action of the whole manager is enabled *)
+Theorem c09_local_close_deadlock_refuted :
+  exists s, lrun false (linit 1) close_deadlock_history = Some s /\ closer s = CWait /\ lstuck false s.
+Proof. exact local_close_deadlock_refuted. Qed.
+Print Assumptions c09_local_close_deadlock_refuted.
+
+Theorem c09_local_send_deadlock_refuted :
+  exists s, lrun false (linit 1) send_deadlock_history = Some s /\ lock_s s = true /\ closer s = CIdle /\ lstuck false s.
+Proof. exact local_send_deadlock_refuted. Qed.
+Print Assumptions c09_local_send_deadlock_refuted.
+
+(* repaired: for every queue size and every history, no Send holds the manager's lock while it waits,
+   and a waiting close can always be confirmed at once and returns with the manager free *)
+Theorem c09_local_close_completes : forall cap acts s,
+  lrun true (linit cap) acts = Some s ->
+  lock_s s = false /\
+  (closer s = CWait ->
+   exists s', (lrun true s [LFwdClose; LCloseEnd] = Some s' \/ lrun true s [LCloseEnd] = Some s') /\
+              closer s' = CDone /\ lock_free s' = true).
+Proof. exact local_close_completes. Qed.
+Print Assumptions c09_local_close_completes.
+
+Theorem c09_flood_outcome_repaired : forall k, In k [50; 150; 250; 300; 380; 430; 450; 500] ->
+  flood_outcome true 200 k = (true, true, true, true).
+Proof. exact flood_outcome_repaired. Qed.
+Print Assumptions c09_flood_outcome_repaired.
+
+Theorem c09_flood_outcome_pinned :
+  flood_outcome false 200 150 = (true, true, true, true) /\
+  flood_outcome false 200 300 = (false, true, false, false) /\
+  flood_outcome false 200 450 = (false, false, false, false).
+Proof. exact flood_outcome_pinned. Qed.
+Print Assumptions c09_flood_outcome_pinned.
+
 (* ---- classifier ---------------------------------------------------------------------------------------- *)
 
 Theorem c09_classifier_total : forall c,
